@@ -416,8 +416,7 @@ def sp_row(I, st, args, kwargs):
     return _seq(ROW(y.arr, w.arr, w.length, cv.arr), cv.length)
 
 
-@spec('rows')
-def sp_rows(I, st, args, kwargs):
+def sp_rows_mi(I, st, args, kwargs):
     y, w, s, cv = args
     return _seq(ROWS(y.arr, w.arr, w.length, to_term(s, 'int'), y.length, cv.arr), cv.length)
 
@@ -544,3 +543,44 @@ def sp_offs(I, st, args, kwargs):
 def sp_min2(I, st, args, kwargs):
     a, b = to_term(args[0], 'int'), to_term(args[1], 'int')
     return VInt(z3.If(a < b, a, b))
+
+
+# ----------------------------------------------------------------------------- sketches (C15)
+lemma('sum_pointupdate',
+      # two rows that agree everywhere except at cell j: their sums differ by the difference at j
+      z3.ForAll([_A, _B, _j, _m], z3.Implies(
+          z3.And(_m >= 0, z3.ForAll([_i], z3.Implies(z3.And(_i >= 0, _i < _m, _i != _j), _B[_i] == _A[_i]))),
+          SUMI(_B, _m) == SUMI(_A, _m) + z3.If(z3.And(_j >= 0, _j < _m), _B[_j] - _A[_j], 0)),
+          patterns=[z3.MultiPattern(SUMI(_B, _m), SUMI(_A, _m), _B[_j])]),
+      [(lab, z3.ForAll([_A, _B, _j], f)) for lab, f in _induction(
+          lambda n: z3.Implies(z3.ForAll([_i], z3.Implies(z3.And(_i >= 0, _i < n, _i != _j), _B[_i] == _A[_i])),
+                               SUMI(_B, n) == SUMI(_A, n) + z3.If(z3.And(_j >= 0, _j < n), _B[_j] - _A[_j], 0)), _n)])
+lemma('sum_ge_elem',
+      z3.ForAll([_A, _j, _m], z3.Implies(
+          z3.And(_j >= 0, _j < _m, z3.ForAll([_i], z3.Implies(z3.And(_i >= 0, _i < _m), _A[_i] >= 0))),
+          z3.And(_A[_j] <= SUMI(_A, _m), SUMI(_A, _m) >= 0)), patterns=[z3.MultiPattern(SUMI(_A, _m), _A[_j])]),
+      [(lab, z3.ForAll([_A], f)) for lab, f in _induction(
+          lambda n: z3.Implies(z3.ForAll([_i], z3.Implies(z3.And(_i >= 0, _i < n), _A[_i] >= 0)),
+                               z3.And(SUMI(_A, n) >= 0, z3.ForAll([_j], z3.Implies(z3.And(_j >= 0, _j < n), _A[_j] <= SUMI(_A, n))))), _n)])
+
+
+@spec('cms_h')
+def sp_cms_h(I, st, args, kwargs):
+    """the sketch's hash: ((hash(x) mod 2^32) + seed) mod width  (python/numba `hash` uninterpreted)."""
+    from .sym import sort_of
+    x, seed, width = args
+    f = z3.Function('pyhash_' + str(sort_of(x.kind)), sort_of(x.kind), I_)
+    return VInt(PYMOD(PYMOD(f(to_term(x, x.kind)), z3.IntVal(2**32)) + to_term(seed, 'int'), to_term(width, 'int')))
+
+
+@spec('rows')
+def sp_nrows(I, st, args, kwargs):
+    from .sym import VMat
+    if isinstance(args[0], VMat):
+        return VInt(args[0].rows)
+    return sp_rows_mi(I, st, args, kwargs)
+
+
+@spec('cols')
+def sp_ncols(I, st, args, kwargs):
+    return VInt(args[0].cols)
